@@ -48,7 +48,9 @@ def run(tier, seed):
         "EvictStopsAtTarget / EvictOrder (dominance) / CleanupRemovesOnlyExpired are invariants. Behaviours are "
         "replayed on both real backends with 1 MiB chunks (so the size weight is live), LastAccess stamped from "
         "the model clock, the janitor goroutine gated at every candidate; TLC (CacheStoreTrace) judges every "
-        "eviction/cleanup decision observed.",
+        "eviction/cleanup decision observed. Interval changed at run time: spec/JanitorCtl.tla (listener -> one-slot mailbox -> janitor) is checked "
+        "by TLC (LatestGoverns, Settles; drop-when-full negative control) and every visible schedule of changes x hold/release of the janitor "
+        "up to length 5/6 runs on the real cache; TLC judges the interval the janitor ends up on.",
         ["the exact weight of size against age is not part of the verdict (dominance rule only)",
          "entries exempt from the ordering claim: TryLock-skipped, sharing the triggering store's shard (memory "
          "backend), or changed while the eviction ran"],
@@ -56,4 +58,9 @@ def run(tier, seed):
 
 
 def replay(path):
+    import json
+    art = json.load(open(path))
+    if art.get("kind") == "jandrv":
+        import janfam
+        return [path] if janfam.replay(art) else []
     return replay_file("C13", path)
